@@ -352,7 +352,7 @@ fn run_batch(prop: &str, b: &Batch, n: u64, master: u64, t: Tier, ignorable: &(d
 }
 
 pub fn run_time_limit(heavy: bool) -> Duration {
-    let d = if heavy { 3600 } else { 300 };
+    let d = if heavy { 900 } else { 300 };
     Duration::from_secs(std::env::var("VERIF_RUN_TIMEOUT_S").ok().and_then(|s| s.parse().ok()).unwrap_or(d))
 }
 
@@ -392,13 +392,27 @@ fn report_hung_run(prop: &str, b: &Batch, idx: u64, seed: u64, limit: Duration) 
 pub fn shrink(f: Scn, tape: Vec<u64>, key: &str, max_execs: usize, deadline: Instant) -> (Vec<u64>, usize) {
     let mut best = tape;
     let mut execs = 0usize;
+    // the first execution (the full tape) gets the remaining shrink time and a generous margin
+    let limit = std::cell::Cell::new(deadline.saturating_duration_since(Instant::now()) + Duration::from_secs(120));
+    let first = std::cell::Cell::new(true);
     let test = |t: &Vec<u64>, execs: &mut usize| -> bool {
         if *execs >= max_execs || Instant::now() > deadline {
             return false;
         }
         *execs += 1;
+        // a candidate may run for as long as the slowest candidate that reproduced so far took,
+        // times four, plus a second; never past the shrink deadline by more than that
+        let started = Instant::now();
+        world::ABANDON_AT.with(|c| c.set(Some(started + limit.get())));
         let o = exec_run(f, Tape::replay(t.clone()), false);
-        o.first_key().as_deref() == Some(key)
+        world::ABANDON_AT.with(|c| c.set(None));
+        let ok = o.first_key().as_deref() == Some(key);
+        if first.replace(false) {
+            limit.set(started.elapsed() * 4 + Duration::from_secs(1));
+        } else if ok {
+            limit.set(limit.get().max(started.elapsed() * 4 + Duration::from_secs(1)));
+        }
+        ok
     };
     // The replay of the full tape must reproduce at all.
     if !test(&best, &mut execs) {
